@@ -46,6 +46,11 @@ RanEq(e, r) ==
   /\ \A k \in 1..Len(e) :
         /\ r[k].node = e[k].node /\ r[k].args = e[k].args
         /\ r[k].ctxok /\ r[k].viewok
+        /\ Len(r[k].req) = Len(e[k].req)
+        /\ \A j \in 1..Len(e[k].req) :
+              /\ r[k].req[j].ek = e[k].req[j].ek /\ r[k].req[j].left = e[k].req[j].left
+              /\ (e[k].req[j].ek = "" => r[k].req[j].val = e[k].req[j].val)
+              /\ (e[k].req[j].ek = "missing" => r[k].req[j].msg = e[k].req[j].msg /\ r[k].req[j].syn)
 
 (* Fields of the observed outcome r that differ from the expected outcome. *)
 Diff(cfg, e, r) ==
